@@ -197,6 +197,7 @@ static void at_exec(int idx) {
 
 /* stack contents below the caller are arbitrary: fill them with a non-zero pattern before the call (command dirtystack <bytes>) */
 static size_t dirty_bytes = 0;
+static int pre_errno = -1;
 static long child_timeout = 30;           /* seconds; command childtimeout <n> */
 static void __attribute__((noinline)) dirty_stack(size_t nbytes) {
     volatile unsigned char *p = alloca(nbytes);
@@ -220,6 +221,8 @@ static void do_call(const char *kind) {
     if (getenv("XDRV_MARK")) { if (write(-1, "XDRV-ENTER", 10) < 0) {} }       /* markers for syscall-level tracers (C03) */
     rc->track = 1;
     if (dirty_bytes) dirty_stack(dirty_bytes);
+    /* errno is whatever the caller's earlier work left behind: ERANGE on every other call of a process (or the value set by preerrno <n>) */
+    { static unsigned callno; errno = pre_errno >= 0 ? pre_errno : ((callno++ + (unsigned) getpid()) & 1 ? ERANGE : 0); }
     if (strcmp(kind, "execv") == 0) r = execv((char *) cur.path, cur.argv);
     else r = execve((char *) cur.path, cur.argv, cur.envp);
     int e = errno;
@@ -372,6 +375,7 @@ static size_t run_line(size_t pc, int in_child, int *stop) {
     } else if (!strcmp(c, "writefile")) { unsigned char *a = unhex(tok[1], &n); size_t m = 0; unsigned char *b = unhex(tok[2], &m);
         int fd = open((char *) a, O_WRONLY | O_CREAT | O_TRUNC, 0644); if (fd < 0 || write(fd, b, m) < 0) opf("{\"ev\":\"error\",\"what\":\"writefile: %s\"}\n", strerror(errno)); if (fd >= 0) close(fd); free(a); free(b);
     } else if (!strcmp(c, "chmodpath")) { unsigned char *a = unhex(tok[1], &n); if (chmod((char *) a, (mode_t) strtol(tok[2], NULL, 8))) opf("{\"ev\":\"error\",\"what\":\"chmod: %s\"}\n", strerror(errno)); free(a);
+    } else if (!strcmp(c, "preerrno")) { pre_errno = atoi(tok[1]);
     } else if (!strcmp(c, "childtimeout")) { child_timeout = atol(tok[1]);
     } else if (!strcmp(c, "dirtystack")) { dirty_bytes = (size_t) atol(tok[1]);
     } else if (!strcmp(c, "sethostname")) { unsigned char *a = unhex(tok[1], &n); if (sethostname((char *) a, n)) opf("{\"ev\":\"error\",\"what\":\"sethostname: %s\"}\n", strerror(errno)); free(a);
